@@ -138,6 +138,8 @@ themselves exactly as sorting them alone does, and the other nodes carry no toke
 def reorderTree (cfg : PConfig) : ANode → ANode
   | .leaf k t a => .leaf k t a
   | .inner k cs a =>
+    -- a node that is emitted verbatim (`@typstyle off`) is not touched, whatever it contains
+    if isVerbatimNode k cs a then .inner k cs a else
     .inner k (reorderTreeL cfg (k == .moduleImport && cfg.reorder && importSortable (importFlattened cs)) cs) a
 def reorderTreeL (cfg : PConfig) (sortItems : Bool) : List ANode → List ANode
   | [] => []
